@@ -14,6 +14,8 @@ import (
 )
 
 type State struct {
+	panicking bool // a panic is propagating (deferred calls are running)
+	recovered bool // recover() stopped it
 	held   map[string]string // lock decl key + "@" + owner term -> "w" | "r"
 	reach  Term
 	snap   *Snapshot
@@ -23,7 +25,7 @@ type State struct {
 }
 
 func (s *State) clone() *State {
-	n := &State{reach: s.reach, snap: s.snap.clone(), env: map[string]TV{}, addr: map[string]TV{}, held: map[string]string{}}
+	n := &State{reach: s.reach, snap: s.snap.clone(), env: map[string]TV{}, addr: map[string]TV{}, held: map[string]string{}, panicking: s.panicking, recovered: s.recovered}
 	for k, x := range s.held {
 		n.held[k] = x
 	}
@@ -79,9 +81,10 @@ type Frame struct {
 }
 
 type Exit struct {
-	st      *State
-	results []TV
-	panics  bool
+	st        *State
+	results   []TV
+	panics    bool
+	recovered bool
 }
 
 type loopInfo struct {
@@ -544,6 +547,11 @@ func (v *FV) execBody(fr *Frame, entry *State) []Exit {
 					st.addr[name] = tv
 				}
 			}
+			st.recovered = true
+			for _, in := range ins {
+				st.panicking = st.panicking || in.st.panicking
+				st.recovered = st.recovered && in.st.recovered
+			}
 			st.held = map[string]string{}
 			for k, m := range ins[0].st.held {
 				keep := true
@@ -619,7 +627,18 @@ func (v *FV) execBody(fr *Frame, entry *State) []Exit {
 				exits = append(exits, Exit{st: st, panics: true})
 				terminated = true
 			default:
+				mayPanic := false
+				if ci, ok := instr.(*ssa.Call); ok && v.quiet == 0 && len(st.defers) > 0 && v.callMayPanic(fr, ci.Common()) {
+					mayPanic = true
+				}
 				v.execInstr(fr, st, instr)
+				if mayPanic {
+					// the callee panics at some point of its execution: start from its
+					// effects (ghost call trace included), then anything may have happened
+					if ex, ok := v.panicPath(fr, st.clone(), instr.(*ssa.Call)); ok {
+						exits = append(exits, ex)
+					}
+				}
 			}
 			if terminated {
 				break
@@ -724,6 +743,10 @@ func (v *FV) loopHeader(fr *Frame, li *loopInfo, st *State) *State {
 		if phi.Comment != "" {
 			ns.env[phi.Comment] = tv
 			delete(ns.addr, phi.Comment)
+		}
+		if phi.Comment == "rangeindex" {
+			// built-in invariant of slice range loops: the hidden index starts at -1 and only grows
+			v.assume(ns.reach, fmt.Sprintf("(and (%s %s %s) (%s %s %s))", v.cmpOp(">=", true), tv.T, v.intLit(big.NewInt(-1), 64), v.cmpOp("<", true), tv.T, v.intLit(new(big.Int).Lsh(big.NewInt(1), 62), 64)))
 		}
 	}
 	// variables assigned in the loop via memory (addr) stay addr; env entries for names
@@ -899,6 +922,9 @@ func (v *FV) execInstr(fr *Frame, st *State, instr ssa.Instruction) {
 		} else {
 			l := &Loc{kind: 2, arr: v.cellArray(elem), ref: ref, ty: elem}
 			v.store(st, l, v.zero(elem))
+			if cellIsPrivate(in) || cellIsFinal(in) {
+				v.protectedCells = append(v.protectedCells, protectedCell{l.arr, ref})
+			}
 		}
 	case *ssa.FieldAddr:
 		base := v.val(fr, in.X)
@@ -1174,6 +1200,14 @@ func (v *FV) unop(fr *Frame, st *State, in *ssa.UnOp) {
 			v.locksetField(fr, st, fa, "", false, posStr(v.eng.fset, in.Pos()))
 		}
 		tv := v.setVal(fr, in, v.load(st, l))
+		if a, ok := in.X.(*ssa.Alloc); ok {
+			// a local variable that only ever holds one closure: calls through it are calls of that closure
+			if mc := singleClosureStore(a); mc != nil {
+				if ci, ok := fr.closures[mc]; ok {
+					fr.closures[in] = ci
+				}
+			}
+		}
 		if tv.Sort == "Int" && v.isRefType(in.Type()) {
 			v.assume(st.reach, v.refOK(tv.T))
 		} else {
@@ -1618,4 +1652,204 @@ func (v *FV) constArray(ksort, esort string, zero Term) Term {
 	a := v.declare("zeroarr", fmt.Sprintf("(Array %s %s)", ksort, esort))
 	v.emit(fmt.Sprintf("(assert (forall ((i %s)) (! (= (select %s i) %s) :pattern ((select %s i)))))", ksort, a, zero, a))
 	return a
+}
+
+// callMayPanic: calls through unknown function values (client code) and callees whose
+// contract says may_panic can panic; this matters only where a deferred recover exists.
+func (v *FV) callMayPanic(fr *Frame, cc *ssa.CallCommon) bool {
+	if fr.fn.Recover == nil {
+		return false
+	}
+	con, callee := v.resolveCallee(fr, cc)
+	if con != nil {
+		return con.MayPanic
+	}
+	if callee == nil && !cc.IsInvoke() {
+		if _, isB := cc.Value.(*ssa.Builtin); !isB {
+			return true
+		}
+	}
+	if callee != nil && v.inlinable(callee) {
+		// an inlined callee that itself calls unknown function values
+		for _, b := range callee.Blocks {
+			for _, in := range b.Instrs {
+				if ci, ok := in.(ssa.CallInstruction); ok {
+					if _, isFn := ci.Common().Value.(*ssa.Function); !isFn && !ci.Common().IsInvoke() {
+						if _, isB := ci.Common().Value.(*ssa.Builtin); !isB {
+							return true
+						}
+					}
+				}
+			}
+		}
+	}
+	return false
+}
+
+// panicPath: the call panicked: its effects are arbitrary, the deferred calls run with
+// recover() != nil; if one of them recovers the function returns its named results.
+func (v *FV) panicPath(fr *Frame, st *State, call *ssa.Call) (Exit, bool) {
+	pos := posStr(v.eng.fset, call.Pos())
+	cc := call.Common()
+	// the panicking callee counts as called (ghost trace) and may have done anything before
+	v.regArray("CALLS", fmt.Sprintf("(Array Int %s)", v.idx()))
+	v.regArray("ARGNN", "(Array Int Bool)")
+	_ = cc
+	v.havocAll(st.snap)
+	st.panicking = true
+	st.recovered = false
+	ds := st.defers
+	st.defers = nil
+	for i := len(ds) - 1; i >= 0; i-- {
+		v.runDeferred(fr, st, ds[i])
+	}
+	if !st.recovered {
+		if !(v.con != nil && v.con.MayPanic) {
+			v.oblige("panic", "propagates", pos, "a panic of the callee propagates out of this function", st.reach, "false")
+		}
+		return Exit{st: st, panics: true}, true
+	}
+	// recovered: results are the current values of the named result cells (or zero)
+	var res []TV
+	rb := fr.fn.Recover
+	if rb != nil {
+		for _, in := range rb.Instrs {
+			if ret, ok := in.(*ssa.Return); ok {
+				for _, r := range ret.Results {
+					if u, ok := r.(*ssa.UnOp); ok {
+						if l := v.locOf(fr, st, u.X); l != nil {
+							t := v.load(st, l)
+							res = append(res, TV{T: t, Ty: u.Type(), Sort: v.sortOf(u.Type())})
+							continue
+						}
+					}
+					res = append(res, v.val(fr, r))
+				}
+			}
+		}
+	}
+	return Exit{st: st, results: res, recovered: true}, true
+}
+
+// cellIsPrivate: the address of this local variable is only stored to / loaded from here
+// or captured by closures that are only called or deferred in this function, so code
+// outside cannot change it.
+func cellIsPrivate(a *ssa.Alloc) bool {
+	refs := a.Referrers()
+	if refs == nil {
+		return false
+	}
+	for _, r := range *refs {
+		switch r := r.(type) {
+		case *ssa.Store:
+			if r.Val == a {
+				return false
+			}
+		case *ssa.UnOp, *ssa.DebugRef:
+		case *ssa.MakeClosure:
+			crefs := r.Referrers()
+			if crefs == nil {
+				return false
+			}
+			for _, cr := range *crefs {
+				switch cr := cr.(type) {
+				case *ssa.Defer:
+					if cr.Call.Value != r {
+						return false
+					}
+				case *ssa.Call:
+					if cr.Call.Value != r {
+						return false
+					}
+				case *ssa.DebugRef:
+				default:
+					return false
+				}
+			}
+		default:
+			return false
+		}
+	}
+	return true
+}
+
+func singleClosureStore(a *ssa.Alloc) *ssa.MakeClosure {
+	refs := a.Referrers()
+	if refs == nil {
+		return nil
+	}
+	var mc *ssa.MakeClosure
+	n := 0
+	for _, r := range *refs {
+		if st, ok := r.(*ssa.Store); ok && st.Addr == a {
+			n++
+			mc, _ = st.Val.(*ssa.MakeClosure)
+		}
+	}
+	if n == 1 {
+		return mc
+	}
+	return nil
+}
+
+// cellIsFinal: the variable is assigned exactly once (here) and no closure capturing it
+// assigns it: its value never changes, whoever runs those closures.
+func cellIsFinal(a *ssa.Alloc) bool {
+	refs := a.Referrers()
+	if refs == nil {
+		return false
+	}
+	stores := 0
+	for _, r := range *refs {
+		switch r := r.(type) {
+		case *ssa.Store:
+			if r.Addr != a {
+				return false
+			}
+			stores++
+		case *ssa.UnOp, *ssa.DebugRef:
+		case *ssa.MakeClosure:
+			fn, ok := r.Fn.(*ssa.Function)
+			if !ok {
+				return false
+			}
+			for i, b := range r.Bindings {
+				if b == a && !freeVarReadOnly(fn, i, 0) {
+					return false
+				}
+			}
+		default:
+			return false
+		}
+	}
+	return stores <= 1
+}
+
+func freeVarReadOnly(fn *ssa.Function, idx, depth int) bool {
+	if depth > 4 || idx >= len(fn.FreeVars) {
+		return false
+	}
+	fv := fn.FreeVars[idx]
+	refs := fv.Referrers()
+	if refs == nil {
+		return true
+	}
+	for _, r := range *refs {
+		switch r := r.(type) {
+		case *ssa.UnOp, *ssa.DebugRef:
+		case *ssa.MakeClosure:
+			inner, ok := r.Fn.(*ssa.Function)
+			if !ok {
+				return false
+			}
+			for i, b := range r.Bindings {
+				if b == fv && !freeVarReadOnly(inner, i, depth+1) {
+					return false
+				}
+			}
+		default:
+			return false
+		}
+	}
+	return true
 }
